@@ -469,8 +469,10 @@ def run(ctx):
     hits, n_eval, n_distinct, samples = search(ctx, rng, (120 if ctx.quick else 1500) * (3 if broken else 1), stats)
     dfails, d_eval, d_dist = L.dtype_search(rng, (200 if ctx.quick else 2000) * (3 if broken else 1), 'rbasex', 'C16')
     hits += [Hit('dtype-independence', k_, 'rbasex_transform: ' + w_, sn_, da_) for (k_, w_, sn_, da_) in dfails]
-    n_eval += d_eval
-    n_distinct += d_dist
+    lfails, l_eval, l_dist = L.layout_search(rng, (200 if ctx.quick else 2000) * (3 if broken else 1), 'rbasex', 'C16')
+    hits += [Hit('layout-independence', k_, 'rbasex_transform: ' + w_, sn_, da_) for (k_, w_, sn_, da_) in lfails]
+    n_eval += d_eval + l_eval
+    n_distinct += d_dist + l_dist
     ctx.cov.update(search_stats=stats)
     ctx.cov.update(evaluations=n_eval + n_cases, distinct_nontrivial=n_distinct,
                    rule='search: random images 3..29 squared, origin tuple (incl. negative) or location string, rmax keyword or '
@@ -480,7 +482,8 @@ def run(ctx):
                         'zero-weight pixels, valid flags, zero at flagged radii, abel.Transform wrapper, and the same call '
                         'after another out without cache clean-up; distinct by (out, odd, direction, reg, weights); dtype independence: integer '
                         '(8..64 bit) and float32 images and weights with values up to the type extremes give the image and distributions '
-                        'of their float64 copies (bit for bit where conversions are exact), the image is float64',
+                        'of their float64 copies (bit for bit where conversions are exact), the image is float64; memory-layout independence '
+                        '(Fortran order, transposed / strided / negative-stride views, read-only arrays): bit-identical image and distributions',
                    samples=samples, exhaustive=False)
     new, seen = 0, set()
     for h in h0 + hits:
